@@ -12,6 +12,7 @@ PATHS = {
     "orins": ["or_insert", "or_insert_with"],
     "remove": ["remove", "entry_remove"],
     "gmod": ["gmod"],
+    "gremove": ["gremove"],
 }
 ALL_PATHS = [p for v in PATHS.values() for p in v]
 
@@ -196,7 +197,7 @@ class Gen:
         r = self.r
         s = r.randrange(self.S)
         k = r.choice(["drain", "drain", "clear", "count", "join", "join", "joinmut", "joinmut", "joinmut", "joinent",
-                      "entries", "restrict", "restrict", "restrict", "slice", "slicemut", "setemit"])
+                      "entries", "restrict", "restrict", "restrict", "slice", "slicemut", "setemit", "flagev"])
         op = {"o": "wop", "k": k, "s": s}
         if k == "drain":
             op["n"] = r.choice([-1, -1, 0, 1, 2, 3])
@@ -217,6 +218,9 @@ class Gen:
             op["wsel"] = r.randrange(1 << 16)
         elif k == "setemit":
             op["b"] = r.random() < 0.6
+        elif k == "flagev":
+            op["ev"] = r.choice(["M", "M", "I", "R"])
+            op["id"] = r.choice([0, 1, 2, 3, 5, 64, 4096])
         return op
 
     def apply(self, eff):
@@ -415,7 +419,7 @@ def kind_churn_scripts(seed, per_kind, n_ops, tid0, kinds=None, far=False):
                 if x < 0.30:
                     ops.append({"o": "sop", "path": rng.choice(PATHS["insert"] + ["or_insert"]), "s": 0, "h": h})
                 elif x < 0.55:
-                    ops.append({"o": "sop", "path": rng.choice(PATHS["remove"]), "s": 0, "h": h})
+                    ops.append({"o": "sop", "path": rng.choice(PATHS["remove"] + ["gremove"]), "s": 0, "h": h})
                 elif x < 0.62:
                     ops.append({"o": "wop", "k": "clear", "s": 0})
                 elif x < 0.67:
@@ -430,7 +434,10 @@ def kind_churn_scripts(seed, per_kind, n_ops, tid0, kinds=None, far=False):
                     ops.append({"o": "wop", "k": rng.choice(["slice", "slice", "slicemut", "join", "count", "restrict", "entries", "joinent"]), "s": 0,
                                 "v": rng.choice(["read", "mut_join", "mut_lend", "lend", "join"]), "sel": rng.randrange(1 << 16), "wsel": rng.randrange(1 << 16)})
                 elif x < 0.985:
-                    ops.append({"o": "wop", "k": "setemit", "s": 0, "b": rng.random() < 0.6})
+                    if rng.random() < 0.7:
+                        ops.append({"o": "wop", "k": "setemit", "s": 0, "b": rng.random() < 0.6})
+                    else:
+                        ops.append({"o": "wop", "k": "flagev", "s": 0, "ev": rng.choice(["M", "I", "R"]), "id": rng.choice(keep)})
                 elif j % 4 == 1:
                     ops.append({"o": "oob_insert", "s": 0})
             res.append({"tid": tid, "cfg": {"kinds": [kind], "reg": [REGS[j % len(REGS)]]}, "ops": ops, "sweep": "full"})
